@@ -1356,3 +1356,46 @@ Proof.
   inversion H as [|? ? _ H1]; subst. inversion H1 as [|? ? _ H2]; subst. inversion H2 as [|? ? _ H3]; subst.
   inversion H3 as [|? ? _ H4]; subst. inversion H4 as [|? ? H5 _]; subst. discriminate H5.
 Qed.
+
+(* ------------------------------------------------------------------ answers are values *)
+
+Lemma reads_of_app i a b : reads_of i (a ++ b) = reads_of i a ++ reads_of i b.
+Proof. unfold reads_of. now rewrite filter_app, map_app. Qed.
+
+Lemma xrun_value_inv evs : forall q log i,
+  let '(q1, log1) := fold_left xstep_value evs (q, log) in
+  reads_of i log1 ++ q1 i = reads_of i log ++ q i ++ dones_of i evs.
+Proof.
+  induction evs as [|e evs IH]; intros q log i; cbn [fold_left dones_of flat_map].
+  - now rewrite app_nil_r.
+  - destruct e as [j a|j]; cbn [xstep_value].
+    + specialize (IH (qupd q j (q j ++ [a])) log i).
+      destruct (fold_left xstep_value evs (qupd q j (q j ++ [a]), log)) as [q1 log1].
+      rewrite IH. unfold qupd. fold (dones_of i evs). destruct (i =? j) eqn:E.
+      * apply Z.eqb_eq in E. subst j. rewrite Z.eqb_refl. cbn [app]. now rewrite <- !app_assoc.
+      * rewrite Z.eqb_sym, E. reflexivity.
+    + fold (dones_of i evs). destruct (q j) as [|a t] eqn:Eq.
+      * apply IH.
+      * specialize (IH (qupd q j t) (log ++ [(j, a)]) i).
+        destruct (fold_left xstep_value evs (qupd q j t, log ++ [(j, a)])) as [q1 log1].
+        rewrite IH, reads_of_app. unfold qupd, reads_of at 2. cbn [filter fst map snd].
+        destruct (i =? j) eqn:E.
+        -- apply Z.eqb_eq in E. subst j. rewrite Z.eqb_refl, Eq. cbn [map snd app].
+           now rewrite <- !app_assoc.
+        -- rewrite Z.eqb_sym, E. cbn [map app]. now rewrite app_nil_r.
+Qed.
+
+(* every instance sees exactly the answers of its own transfers, in order, whatever the interleaving *)
+Lemma answers_are_own evs i :
+  reads_of i (snd (xrun_value evs)) ++ fst (xrun_value evs) i = dones_of i evs.
+Proof.
+  unfold xrun_value. pose proof (xrun_value_inv evs (fun _ => []) [] i) as H.
+  destruct (fold_left xstep_value evs (fun _ => [], [])) as [q1 log1]. cbn [fst snd]. exact H.
+Qed.
+
+Lemma shared_cell_refuted :
+  exists evs i, ~ (exists rest, dones_of i evs = reads_of i (xrun_cell evs) ++ rest).
+Proof.
+  exists [XDone 0 (RAck true [1]); XDone 1 (RAck false []); XRead 0], 0.
+  intros [rest H]. vm_compute in H. discriminate H.
+Qed.
